@@ -1,8 +1,128 @@
 import NetaddrVerif.Model.Proto
-/-! Driver ops of property C06 (stub: filled in by the property's model). -/
+import NetaddrVerif.Model.IPSet
+/-!
+Driver ops of C06/C07: one line = one history over several live sets.
+`ipset <op>;<op>;…`, fields of an op separated by `,`:
+  new,i,none | new,i,net,N:… | new,i,rng,R:… | new,i,set,j | new,i,list[,item…]
+  add,i,arg | rem,i,arg | upd,i,set,j | upd,i,arg,arg | upd,i,list[,item…]
+  clear,i | pop,i,N:…|- | compact,i | copy,j,i (set j := copy / pickle round trip of set i)
+  bin,k,i,j,or|and|sub|xor      (set k := set i <op> set j)
+  q,i,j,N:…                     (queries on sets i, j and membership of the network)
+Observation per op: mutators print the touched set as `sorted(self._cidrs)` at value level
+(`ver:value/plen`); `q` prints
+  eq subset superset lt gt disjoint size len contiguous iprange ipranges in iter
+-/
 namespace NV.Driver.C06
-open NV NV.Proto
+open NV NV.Proto NV.IPSet
 
-def handle (_op : String) (_args : List String) : Option String := none
+def parseArg (tok : String) : Option Arg :=
+  match parseNet tok with
+  | some n => some (.net n)
+  | none => (parseRng tok).map .rng
+
+def getSet (sets : List St) (i : Nat) : St := sets.getD i []
+def setSet (sets : List St) (i : Nat) (s : St) : List St :=
+  let sets := if sets.length ≤ i then sets ++ List.replicate (i + 1 - sets.length) [] else sets
+  sets.set i s
+
+def showSet (s : St) : String := showList ((iterCidrs s).map showNet)
+
+def showVR (r : VR) : String := s!"{r.1}:{r.2.1}-{r.2.2}"
+
+/-- all addresses in iteration order when the set is small, `-` otherwise -/
+def showIter (s : St) : String :=
+  if size s ≤ 64 then
+    showList ((iterCidrs s).flatMap (fun c =>
+      (List.range (c.last - c.first + 1)).map (fun i => s!"{c.ver}:{c.first + i}")))
+  else "-"
+
+def maxint : Nat := 2 ^ 63 - 1
+
+def query (a b : St) (n : Net) : String :=
+  let lenS := match len maxint a with | .ok v => toString v | .error e => showErr e
+  let ipr := match iprange a with
+    | .ok none => "-"
+    | .ok (some r) => s!"{r.ver}:{r.lo}-{r.hi}"
+    | .error e => showErr e
+  " ".intercalate [showBool (IPSet.eq a b), showBool (issubset a b), showBool (issuperset a b),
+    showBool (IPSet.lt a b), showBool (IPSet.gt a b), showBool (isdisjoint a b), toString (size a), lenS,
+    showBool (iscontiguous a), ipr, showList ((iterIpranges a).map showVR), showBool (contains a n),
+    showIter a]
+
+def step (sets : List St) (fields : List String) : Option (List St × String) :=
+  match fields with
+  | ["new", i, "none"] => do
+    let i ← i.toNat?; pure (setSet sets i [], showSet [])
+  | ["new", i, "net", n] => do
+    let i ← i.toNat?; let n ← parseNet n
+    let s := newOfNet n; pure (setSet sets i s, showSet s)
+  | ["new", i, "rng", r] => do
+    let i ← i.toNat?; let r ← parseRng r
+    let s := newOfRange r; pure (setSet sets i s, showSet s)
+  | ["new", i, "set", j] => do
+    let i ← i.toNat?; let j ← j.toNat?
+    let s := newOfSet (getSet sets j); pure (setSet sets i s, showSet s)
+  | "new" :: i :: "list" :: items => do
+    let i ← i.toNat?; let items ← items.mapM parseArg
+    let s := newOfList items; pure (setSet sets i s, showSet s)
+  | ["add", i, a] => do
+    let i ← i.toNat?; let a ← parseArg a
+    let s := add (getSet sets i) a; pure (setSet sets i s, showSet s)
+  | ["rem", i, a] => do
+    let i ← i.toNat?; let a ← parseArg a
+    let s := remove (getSet sets i) a; pure (setSet sets i s, showSet s)
+  | ["upd", i, "set", j] => do
+    let i ← i.toNat?; let j ← j.toNat?
+    let s := updateSet (getSet sets i) (getSet sets j); pure (setSet sets i s, showSet s)
+  | ["upd", i, "arg", a] => do
+    let i ← i.toNat?; let a ← parseArg a
+    let s := add (getSet sets i) a; pure (setSet sets i s, showSet s)
+  | "upd" :: i :: "list" :: items => do
+    let i ← i.toNat?; let items ← items.mapM parseArg
+    let s := updateList (getSet sets i) items; pure (setSet sets i s, showSet s)
+  | ["clear", i] => do
+    let i ← i.toNat?; pure (setSet sets i [], showSet [])
+  | ["pop", i, b] => do
+    let i ← i.toNat?
+    if b == "-" then
+      -- the implementation raised KeyError: right exactly when the set is empty
+      pure (sets, if (getSet sets i).isEmpty then "!key" else "?pop-on-nonempty")
+    else
+      let b ← parseNet b
+      match pop (getSet sets i) b with
+      | .ok s => pure (setSet sets i s, showSet s)
+      | .error e => pure (sets, showErr e)
+  | ["compact", i] => do
+    let i ← i.toNat?
+    let s := compact (getSet sets i); pure (setSet sets i s, showSet s)
+  | ["copy", j, i] => do
+    let i ← i.toNat?; let j ← j.toNat?
+    let s := copy (getSet sets i); pure (setSet sets j s, showSet s)
+  | ["bin", k, i, j, o] => do
+    let k ← k.toNat?; let i ← i.toNat?; let j ← j.toNat?
+    let a := getSet sets i; let b := getSet sets j
+    let s ← match o with
+      | "or" => some (union a b)
+      | "and" => some (intersection a b)
+      | "sub" => some (difference a b)
+      | "xor" => some (symmetricDifference a b)
+      | _ => none
+    pure (setSet sets k s, showSet s)
+  | ["q", i, j, n] => do
+    let i ← i.toNat?; let j ← j.toNat?; let n ← parseNet n
+    pure (sets, query (getSet sets i) (getSet sets j) n)
+  | _ => none
+
+def run : List St → List String → List String → Option (List String)
+  | _, [], acc => some acc.reverse
+  | sets, op :: ops, acc =>
+    match step sets (op.splitOn ",") with
+    | some (sets', out) => run sets' ops (out :: acc)
+    | none => none
+
+def handle (op : String) (args : List String) : Option String :=
+  match op, args with
+  | "ipset", [ops] => (run [] (ops.splitOn ";") []).map (";".intercalate ·)
+  | _, _ => none
 
 end NV.Driver.C06
